@@ -81,7 +81,7 @@ def menu_for(obj):
             continue
         for a in GENERIC_ARGS:
             ops.append(f"H.{name}{a}")
-    return ops
+    return [o for o in ops if not o.startswith("become(")]  # a harness device, not a library call
 
 
 _REPRESENTATIVE = ("H.add_node", "H.add_nodes_from", "H.add_edge", "H.add_edges_from", "H.add_simplex", "H.add_simplices_from",
